@@ -1,6 +1,7 @@
 package main
 
 import (
+	"sort"
 	"encoding/json"
 	"fmt"
 	"io"
@@ -369,7 +370,13 @@ func c05Diff(ref, got *Outcome) (string, string) {
 	if (len(ref.Fired) > 0 || len(got.Fired) > 0) && !reflect.DeepEqual(ref.Fired, got.Fired) {
 		return "fired-rules", fmt.Sprintf("fresh %v, recycled %v", ref.Fired, got.Fired)
 	}
-	for id, d := range ref.Data {
+	var dataIDs []int
+	for id := range ref.Data {
+		dataIDs = append(dataIDs, id)
+	}
+	sort.Ints(dataIDs) // fixed order: the first differing rule names the clause
+	for _, id := range dataIDs {
+		d := ref.Data[id]
 		if (len(d) > 0 || len(got.Data[id]) > 0) && !reflect.DeepEqual(d, got.Data[id]) {
 			c := "match-data"
 			if id == 9991 {
